@@ -507,3 +507,21 @@ package graphql
 //@   at[C06,C12] call lookup: assert arg1 == schema && len(arg2) >= len(operationName) + 1 && (forall i in 0..len(operationName): arg2[i] == operationName[i]) && arg2[len(operationName)] == 0
 //@   at[C06,C12] call store: assert arg1 == schema && len(arg2) >= len(operationName) + 1 && (forall i in 0..len(operationName): arg2[i] == operationName[i]) && arg2[len(operationName)] == 0
 //@   at[C06] return: assert calls("normalizeDocument") == 1 && calls("lookup") == 1 && calls("store") == 0 && normErr == nil ==> result.SynthArgs == synthArgs
+
+// ---- lazy abstract planning (C01 union of occurrences, C07 lock discipline, C09 no wedged lock, C19 plan only what is met) ----
+
+//@ func Plan.planMergedSelectionsForType
+//@   trusted
+//@   opt maypanic=true
+//@   assigns nothing
+
+//@ func Plan.abstractAlternative
+//@   props C01 C07 C09 C19
+//@   nosafety
+//@   requires p != nil && fp != nil && !held(&p.abstractMu)
+//@   ensures !held(&p.abstractMu)
+//@   panics !held(&p.abstractMu)
+//@   at[C01] call planMergedSelectionsForType: assert arg1 == runtimeType && arg2 == fp.fieldASTs
+//@   at[C01,C19] return: assert calls("planMergedSelectionsForType") == 1 || old(fp.abstractAlternatives != nil && has(fp.abstractAlternatives, runtimeType))
+//@   at[C19] return: assert old(fp.abstractAlternatives != nil && has(fp.abstractAlternatives, runtimeType)) ==> calls("planMergedSelectionsForType") == 0
+//@   guarded[C07] fieldPlan.abstractAlternatives, M|*graphql.Object|*graphql.selectionPlan by &p.abstractMu
